@@ -195,11 +195,12 @@ func (P *Parser) Error(err error, scanner Scanner) (recovered bool, errorAttrib 
 		errorAttrib.ExpectedTokens = append(errorAttrib.ExpectedTokens, P.tokenMap.TokenString(t))
 	}
 
-	action, ok := P.actTab[P.stack.Top()].Actions[P.tokenMap.Type("error")]
-	if !ok {
+	// Recover only from a state that is flagged as a recovery state and can shift the error symbol.
+	action, ok := P.actTab[P.stack.Top()].Actions[P.tokenMap.Type("error")].(Shift)
+	if !ok || !P.actTab[P.stack.Top()].canRecover {
 		return
 	}
-	P.stack.Push(State(action.(Shift)), errorAttrib) // action can only be shift
+	P.stack.Push(State(action), errorAttrib)
 
 	_, recovered = P.actTab[P.stack.Top()].Actions[P.nextToken.Type]
 	for !recovered && P.nextToken.Type != token.EOF {
